@@ -27,6 +27,7 @@ type FieldAccess struct {
 	Node  ast.Node
 	Write bool
 	Base  ast.Expr // the expression the field is selected from (nil for composite literal keys)
+	Addr  bool     // the field's address is taken (&x.f); not counted as Write
 }
 
 // FieldAccesses lists every access to fld in the package's function bodies.
@@ -39,6 +40,7 @@ func FieldAccesses(pkg *packages.Package, fld *types.Var) []FieldAccess {
 		var walkFn func(fn *Fn)
 		walkFn = func(fn *Fn) {
 			writes := map[ast.Node]bool{}
+			addrs := map[ast.Node]bool{}
 			var markLHS func(e ast.Expr)
 			markLHS = func(e ast.Expr) {
 				switch x := Unparen(e).(type) {
@@ -62,7 +64,9 @@ func FieldAccesses(pkg *packages.Package, fld *types.Var) []FieldAccess {
 					markLHS(s.X)
 				case *ast.UnaryExpr:
 					if s.Op == token.AND {
-						markLHS(s.X)
+						if sel, ok := Unparen(s.X).(*ast.SelectorExpr); ok {
+							addrs[sel] = true
+						}
 					}
 				case *ast.CallExpr:
 					if o := Callee(info, s); o != nil {
@@ -86,7 +90,7 @@ func FieldAccesses(pkg *packages.Package, fld *types.Var) []FieldAccess {
 				switch s := n.(type) {
 				case *ast.SelectorExpr:
 					if sel := info.Selections[s]; sel != nil && sel.Obj() == fld {
-						out = append(out, FieldAccess{Fn: root, In: fn, Node: s, Write: writes[s], Base: s.X})
+						out = append(out, FieldAccess{Fn: root, In: fn, Node: s, Write: writes[s], Base: s.X, Addr: addrs[s]})
 					}
 				case *ast.KeyValueExpr:
 					if id, ok := s.Key.(*ast.Ident); ok && info.Uses[id] == fld {
